@@ -410,6 +410,8 @@ package objects
 //@   sweep
 //@   mode nopanic=off
 //@   at[schedulable:C01] call objects.Application.tryNode#1: assert arg1.schedulable
+//@   at[headrooms:C05,C02] call objects.Application.tryNode#1: assert arg2 == ask && fitsHR(userHeadroom, ask.allocatedResource) && fitsHR(headRoom, ask.allocatedResource) && !ask.allocated
+//@   at[headrooms:C05,C02] call objects.Application.tryNodesNoReserve#1: assert arg1 == alloc && fitsHR(userHeadroom, alloc.allocatedResource) && fitsHR(headRoom, alloc.allocatedResource)
 
 // the non-forced bind gate has exactly two callers; both carry the gate obligations (tryNode above, the cross-node
 // placeholder swap in tryPlaceholderAllocate under C06)
@@ -718,3 +720,25 @@ package objects
 // ghost tokens: "decUserResourceUsage ran on this path" / "the user has no tracker, so nothing is charged to it"
 //@ spec abstract usercredited(a *Application) bool
 //@ spec abstract usernottracked(a *Application) bool
+
+// ================================================================ C05: user/group quota gates on the scheduling paths
+
+// r fits in the headroom hr on every type hr defines (a nil / missing type is unlimited): FitInMaxUndef
+//@ spec fitsHR(hr *resources.Resource, r *resources.Resource) bool = forall t Key :: has(r, t) && has(hr, t) ==> rv(r, t) <= posv(rv(hr, t))
+
+//@ func (sa *Application) checkHeadRooms(ask *Allocation, userHeadroom *resources.Resource, headRoom *resources.Resource) (ok bool)
+//@   props C05 C02
+//@   pure
+//@   mode nopanic=off
+//@   ensures ok <==> fitsHR(userHeadroom, ask.allocatedResource) && fitsHR(headRoom, ask.allocatedResource)
+
+// every path of the normal allocation cycle that reaches a node (or preemption) has passed the user/group headroom
+// check for this very request; node attempts have also passed the queue headroom check
+//@ func (sa *Application) tryAllocate(headRoom *resources.Resource, allowPreemption bool, preemptionDelay time.Duration, preemptAttemptsRemaining *int, nodeIterator func() NodeIterator, fullNodeIterator func() NodeIterator, getNodeFn func(string) *Node) (res *AllocationResult)
+//@   props C05 C02
+//@   sweep
+//@   mode nopanic=off
+//@   at[user] call objects.Application.tryRequiredNode#1: assert arg1 == request && fitsHR(userHeadroom, request.allocatedResource) && fitsHR(headRoom, request.allocatedResource) && !request.allocated
+//@   at[user] call objects.Application.tryNodes#1: assert arg1 == request && fitsHR(userHeadroom, request.allocatedResource) && fitsHR(headRoom, request.allocatedResource) && !request.allocated
+//@   at[user] call objects.Application.tryPreemption#1: assert arg4 == request && fitsHR(userHeadroom, request.allocatedResource)
+//@   at[user] call objects.Application.tryPreemption#2: assert arg4 == request && fitsHR(userHeadroom, request.allocatedResource) && fitsHR(headRoom, request.allocatedResource)
